@@ -179,9 +179,35 @@ def chains(rep):
         rhs, ph = l1["rhs"], l2["phrase"]
         name = " ".join(l1["name"])
         # (12:xx am is the known finding of C11's literal forms: not written here)
-        first = ([r for r in c11.renderings(rhs, ci, True) if "12am" not in r[0]] if rhs["form"] == "time_shift" else c09.renderings(rhs, "en", ci, False))[0][1]
+        from props import c05, c06, c10, c12
+        if rhs["form"] == "time_shift":
+            first = [r for r in c11.renderings(rhs, ci, True) if "12am" not in r[0]][0][1]
+        elif rhs["form"] == "date_shift":
+            first = c09.renderings(rhs, "en", ci, False)[0][1]
+        elif rhs["form"] == "money_arith":
+            first = c06.renderings(rhs, CFG, ci, False)[0][1]
+        elif rhs["form"] == "pct_phrase":
+            first = c05.renderings(rhs, CFG, ci, False)[0][1]
+        elif rhs["form"] in ("unit_conv", "unit_arith"):
+            first = c12.renderings(rhs, CFG, ci, False)[0][1]
+        else:
+            first = c10.renderings(rhs, "en", True, ci)[0][1]
         f = ph["form"]
-        if f == "time_diff":
+        if f == "money_conv":
+            second = "%s to %s" % (name, ph["target"])
+        elif f == "money_arith":
+            second = "%s %s %s" % (name, ph["op"], render.money_texts(ph["r"]["q"], ph["r"]["cur"], CFG)[0][1])
+        elif f == "pct_phrase":
+            second = "%s %s %s" % (render.pct_text(ph["p"], CFG, "after"), ph["w"], name)
+        elif f == "unit_conv":
+            second = "%s to %s" % (name, ph["target"])
+        elif f == "unit_arith":
+            second = "%s %s %s" % (name, ph["op"], render.number_text(render.q_fraction(ph["r"]["q"])))
+        elif f == "dur_as":
+            second = "%s as %ss" % (name, ph["target"])
+        elif f == "dur_arith":
+            second = "%s %s %s" % (name, ph["op"], render.dur_parts_text(ph["b"], "en", ci))
+        elif f == "time_diff":
             second = "%s to %s" % (name, render.time_text(ph["w2"], NOZ, render.time_spellings(ph["w2"])[ci % 2][0]))
         elif f == "time_conv":
             second = "%s to %s" % (name, ph["z2"]["name"])
